@@ -98,7 +98,8 @@ HintSet == LeafAll \cup D1H \cup D2H
 HintSeq == TLCEval(SetToSeq(HintSet))
 NHint == TLCEval(Len(HintSeq))
 
-Confs == << Conf(TRUE, FALSE, FALSE), Conf(FALSE, FALSE, FALSE), Conf(TRUE, TRUE, FALSE), Conf(TRUE, FALSE, TRUE) >>
+Confs == << Conf(TRUE, FALSE, FALSE), Conf(FALSE, FALSE, FALSE), Conf(TRUE, TRUE, FALSE), Conf(TRUE, FALSE, TRUE),
+           [Conf0 EXCEPT !.ov3 = TRUE] >>
 \* lcm(1..L): the draw enters only as r % len
 Lcm == CASE L = 1 -> 1 [] L = 2 -> 2 [] L = 3 -> 6 [] L = 4 -> 12
 Draws == 0 .. (Lcm - 1)
@@ -195,6 +196,7 @@ RelevantConf(h, ci) ==
     [] ci = 2 -> HasKind(h, {"seq", "quasi"})
     [] ci = 3 -> HasCls(h, {"float", "complex"})
     [] ci = 4 -> HasCls(h, {"A"})
+    [] ci = 5 -> HasCls(h, {"A"})
 
 Bit(b, w) == IF b THEN w ELSE 0
 Code(h, x) == Bit(Sat(h, x), 1) + Bit(SatB(h, x), 2) + Bit(MustReject(h, x), 4) + Bit(Weak(h, x), 8)
